@@ -3,6 +3,9 @@ package c16
 
 import (
 	"fmt"
+	"math/rand/v2"
+	"runtime"
+	"sync"
 	"testing"
 
 	"github.com/platinummonkey/go-concurrency-limits/core"
@@ -44,10 +47,81 @@ type lst struct {
 var innerKinds = []string{"aimd", "vegas", "gradient", "gradient2", "settable", "fixed", "rec"}
 var wrapKinds = []string{"bare", "bare", "windowed", "traced", "traced+windowed"}
 
+// concurrentCase: several goroutines feed samples to one sample-driven algorithm; listeners pause before recording.
+// At quiescence every listener that was called must hold the value EstimatedLimit reports (delivery order must
+// follow update order; correct code notifies under the algorithm's lock, so the pause cannot reorder anything).
+func concurrentCase(idx int64, r *rand.Rand) {
+	kind := limgen.Kinds[r.IntN(4)]
+	spec := limgen.Gen(r, kind, limgen.Opts{NoProbe: true})
+	if spec.Smoothing > 0 && spec.Smoothing < 0.3 {
+		spec.Smoothing = 1
+	}
+	l := spec.New(nil, "c16")
+	type rec struct {
+		mu     sync.Mutex
+		called int
+		last   int
+	}
+	recs := make([]*rec, 1+r.IntN(3))
+	for i := range recs {
+		rc := &rec{}
+		recs[i] = rc
+		l.NotifyOnChange(func(v int) {
+			for k := 0; k < 3; k++ {
+				runtime.Gosched()
+			}
+			rc.mu.Lock()
+			rc.called++
+			rc.last = v
+			rc.mu.Unlock()
+		})
+	}
+	nG := 2 + r.IntN(5)
+	seeds := make([]uint64, nG)
+	for i := range seeds {
+		seeds[i] = r.Uint64()
+	}
+	base := int64(1) << uint(10+r.IntN(12))
+	rounds := 6 + r.IntN(10)
+	var wg sync.WaitGroup
+	for g := 0; g < nG; g++ {
+		wg.Add(1)
+		go func(g int) {
+			defer wg.Done()
+			lr := rand.New(rand.NewPCG(seeds[g], 3))
+			for i := 0; i < rounds; i++ {
+				s := limgen.Benign(lr, l.EstimatedLimit(), base, 0.15)
+				if lr.IntN(2) == 0 {
+					s.InFlight = l.EstimatedLimit() + 1
+				}
+				l.OnSample(0, s.RTT, s.InFlight, s.Drop)
+			}
+		}(g)
+	}
+	wg.Wait()
+	final := l.EstimatedLimit()
+	rt.Count("concurrent_cases", 1)
+	for i, rc := range recs {
+		if rc.called > 0 {
+			rt.Count("concurrent_listener_final_checks", 1)
+			if rc.last != final {
+				rt.Violation("C16/"+kind+"/concurrent/last-notified-value-stale-at-quiescence", idx, rt.J{"spec": spec, "listener": i,
+					"last_notified": rc.last, "estimate": final, "goroutines": nG, "samples_per_goroutine": rounds, "notifications": rc.called})
+				return
+			}
+		}
+	}
+	rt.Distinct(fmt.Sprintf("conc|%+v|%d|%d|%d", spec, nG, rounds, seeds[0]))
+}
+
 func TestCheck(t *testing.T) {
 	rt.Cases(10000, 400000, func(idx int64) {
 		r := rt.CaseRand(16, idx)
 		rt.Case()
+		if idx%5 == 4 {
+			concurrentCase(idx, r)
+			return
+		}
 		ik := innerKinds[r.IntN(len(innerKinds))]
 		wk := wrapKinds[r.IntN(len(wrapKinds))]
 		var inner core.Limit
